@@ -80,3 +80,60 @@ def run_traced(tracer, slv, X, y, df, pen, w_init=None, Xw_init=None, run_checks
         _verif.set_sink(prev)
     tracer.ret(res, exc, w_init, Xw_init)
     return res, exc
+
+
+# ------------------------------------------------------------------ descriptors from live objects
+def describe_penalty(pen):
+    k = type(pen).__name__
+    d = {"kind": k}
+    for a in ("alpha", "l1_ratio", "gamma", "eps", "positive"):
+        if hasattr(pen, a):
+            v = getattr(pen, a)
+            d[a] = bool(v) if a == "positive" else float(v)
+    for a in ("weights", "weights_groups", "weights_features", "alphas"):
+        if hasattr(pen, a):
+            d[a] = np.asarray(getattr(pen, a), dtype=float).tolist()
+    for a in ("grp_ptr", "grp_indices"):
+        if hasattr(pen, a):
+            d[a] = np.asarray(getattr(pen, a)).astype(int).tolist()
+    return d
+
+
+def describe_datafit(df):
+    if df is None:
+        return {"kind": "Quadratic"}
+    k = type(df).__name__
+    d = {"kind": k}
+    if hasattr(df, "sample_weights"):
+        d["sample_weights"] = np.asarray(df.sample_weights, dtype=float).tolist()
+    if hasattr(df, "delta"):
+        d["delta"] = float(df.delta)
+    if hasattr(df, "use_efron"):
+        d["use_efron"] = bool(df.use_efron)
+    if hasattr(df, "quantile_level"):
+        d["quantile_level"] = float(df.quantile_level)
+    for a in ("grp_ptr", "grp_indices"):
+        if hasattr(df, a):
+            d[a] = np.asarray(getattr(df, a)).astype(int).tolist()
+    return d
+
+
+# ------------------------------------------------------------------ return events of BaseSolver.solve
+# (harness-side wrapper, no source change): lets AutoTracer close a trace whoever called solve
+from skglm.solvers.base import BaseSolver as _BaseSolver  # noqa: E402
+
+if not getattr(_BaseSolver.solve, "_verif_wrapped", False):
+    _orig_solve = _BaseSolver.solve
+
+    def _solve(self, X, y, datafit, penalty, w_init=None, Xw_init=None, *, run_checks=True):
+        _verif.emit("solve_call", solver=self, X=X, y=y, datafit=datafit, penalty=penalty,
+                    w_init=w_init, Xw_init=Xw_init)
+        try:
+            res = _orig_solve(self, X, y, datafit, penalty, w_init, Xw_init, run_checks=run_checks)
+        except BaseException as e:  # noqa: BLE001
+            _verif.emit("solve_raise", solver=self, exc=e)
+            raise
+        _verif.emit("solve_return", solver=self, res=res, w_init=w_init, Xw_init=Xw_init)
+        return res
+    _solve._verif_wrapped = True
+    _BaseSolver.solve = _solve
